@@ -23,6 +23,10 @@ type ttOp struct {
 	Ply   int    `json:"ply"`
 	Depth int    `json:"depth"`
 	Tag   int    `json:"tag"` // payload identity: bound, depth, score and move are all derived from it
+	// ScoreOnly: stores of the same key differ in NOTHING but the score (same bound, ply, depth and
+	// move - what re-searching a position at the same depth produces); the scores of different tags
+	// differ in every field of the score (type, mate distance, pawns), so a mixture is recognisable
+	ScoreOnly bool `json:"score_only,omitempty"`
 }
 
 type ttParams struct {
@@ -37,6 +41,14 @@ type ttParams struct {
 
 // payload derives the stored tuple from the tag so that a mixed tuple is recognisable.
 func payload(o ttOp) (search.Bound, eval.Score, board.Move) {
+	if o.ScoreOnly || o.Tag >= 1000 { // (the sequential model keeps the flag folded into the tag)
+		tag := o.Tag % 1000
+		sc := eval.HeuristicScore(eval.Pawns(tag) + 0.5)
+		if tag%2 == 1 {
+			sc = eval.MateInXScore(int8(tag))
+		}
+		return search.ExactBound, sc, board.Move{From: board.E2, To: board.E4}
+	}
 	b := search.ExactBound
 	if o.Tag%2 == 1 {
 		b = search.LowerBound
@@ -95,6 +107,9 @@ func (t *seqTable) apply(c ttCall) bool {
 			return (e.ply + e.depth<<1) & 0xffff
 		}
 		fresh := &seqEntry{c.Op.Hash, c.Op.Ply, c.Op.Depth, c.Op.Tag}
+		if c.Op.ScoreOnly {
+			fresh.tag += 1000
+		}
 		if val(cur) > val(fresh) {
 			return !c.OK
 		}
@@ -345,13 +360,13 @@ func firstLine(s string) string {
 
 func init() {
 	Builders["tt"] = buildTT
-	w := func(h uint64, ply, depth, tag int) ttOp { return ttOp{"W", h, ply, depth, tag} }
+	w := func(h uint64, ply, depth, tag int) ttOp { return ttOp{Op: "W", Hash: h, Ply: ply, Depth: depth, Tag: tag} }
 	r := func(h uint64) ttOp { return ttOp{Op: "R", Hash: h} }
 	u := ttOp{Op: "U"}
 	Defs["C17"] = &Def{
 		ID:                 "C17",
 		RacesAreViolations: true,
-		Rule:               "harness threads issue Write(tagged payload)/Read/Used on keys forced to collide (same hash; different hash same slot; 1-, 2- and 4-slot tables; equal/greater/smaller replacement value), with the non-atomic `used++` split into load and store by the rewriter. ALL interleavings of every harness (no bound); thorough adds 3x2-, crossing- and 4-thread harnesses explored to deviation bound 7; a contended-slot harness: one victim store and an adversary whose nine lesser stores and one greater store happen all at once at instants of the explorer's choosing (every retry of a compare-and-swap loop can be made to fail, up to ten times). Oracle per complete interleaving: no data race (every plain field / element access of transposition.go is wrapped by the rewriter and checked against vector clocks that the atomics of the interleaving advance: two accesses to the same byte, one a store, unordered by happens-before = race); each hit returns one single store's tuple for that hash; the call/return history is linearizable w.r.t. the sequential table incl. the replacement rule (brute force over <= 6 calls, every verdict cross-checked against porcupine v1.3.0); fill fraction within [0,1] whenever read and, at quiescence, equal to the number of occupied slots. distinct_nontrivial = distinct call/return histories among executions in which two threads touched a common object",
+		Rule:               "harness threads issue Write(tagged payload)/Read/Used on keys forced to collide (same hash; same hash and same bound/ply/depth/move with only the score differing; different hash same slot; 1-, 2- and 4-slot tables; equal/greater/smaller replacement value), with the non-atomic `used++` split into load and store by the rewriter. ALL interleavings of every harness (no bound); thorough adds 3x2-, crossing- and 4-thread harnesses explored to deviation bound 7; a contended-slot harness: one victim store and an adversary whose nine lesser stores and one greater store happen all at once at instants of the explorer's choosing (every retry of a compare-and-swap loop can be made to fail, up to ten times). Oracle per complete interleaving: no data race (every plain field / element access of transposition.go is wrapped by the rewriter and checked against vector clocks that the atomics of the interleaving advance: two accesses to the same byte, one a store, unordered by happens-before = race); each hit returns one single store's tuple for that hash; the call/return history is linearizable w.r.t. the sequential table incl. the replacement rule (brute force over <= 6 calls, every verdict cross-checked against porcupine v1.3.0); fill fraction within [0,1] whenever read and, at quiescence, equal to the number of occupied slots. distinct_nontrivial = distinct call/return histories among executions in which two threads touched a common object",
 		Gen: func(tier string) []explore.Scenario {
 			ps := []ttParams{
 				{Size: 32, Threads: [][]ttOp{{w(7, 1, 1, 1)}, {w(9, 1, 2, 2)}}},                                // two writers, one slot, second more valuable
@@ -373,6 +388,14 @@ func init() {
 				{Size: 32, Threads: [][]ttOp{{w(7, 1, 1, 1), w(7, 1, 1, 3)}, {r(7), r(7)}}},                    // one writer re-storing the same position, a reader alongside
 				{Size: 32, Threads: [][]ttOp{{w(7, 1, 1, 1)}, {w(7, 1, 1, 2)}, {w(7, 1, 1, 3)}}},               // three stores of the same position at the same ply and depth
 			}
+			// the same position stored again with NOTHING but the score differing (same bound, ply, depth,
+			// move), alongside a reader and alongside each other
+			so := func(tag int) ttOp { return ttOp{Op: "W", Hash: 7, Ply: 1, Depth: 1, Tag: tag, ScoreOnly: true} }
+			ps = append(ps,
+				ttParams{Size: 32, Threads: [][]ttOp{{so(1)}, {so(2)}, {r(7)}}},
+				ttParams{Size: 32, Threads: [][]ttOp{{so(1), so(2)}, {r(7), r(7)}}},
+				ttParams{Size: 32, Threads: [][]ttOp{{so(1), so(2)}, {so(3)}}},
+			)
 			// a contended slot: one victim store (value 20) and an adversary with nine lesser stores followed by a
 			// greater one, each placed at an instant of the explorer's choosing - every retry of the
 			// victim's compare-and-swap loop can be made to fail, as often as the deviation budget allows
